@@ -2353,6 +2353,18 @@ fn generate_format(
 	let mut format_buffer = FormatBuffer::default();
 	for argument in arguments
 	{
+		// A string literal that is used as a view, such as `file!()`.
+		let argument = match argument
+		{
+			Expression::Autocoerce {
+				expression,
+				coerced_type: ValueType::Slice { .. },
+			} if matches!(**expression, Expression::StringLiteral { .. }) =>
+			{
+				expression.as_ref()
+			}
+			_ => argument,
+		};
 		match argument
 		{
 			Expression::StringLiteral { bytes }
